@@ -205,7 +205,7 @@ def end_to_end(chk, rng, nproj):
         proj = GG.gen(rng, {"nmods": rng.choice([2, 3])})
         files = GG.render(proj)
         st = GG.settings(rng)
-        opts = {"graph": "true", "graph_dir": "./gv", "search": "false"}
+        opts = {"graph": "true", "graph_dir": "./gv", "search": "false", "parallel": "0"}
         for key in ("graph_maxdepth", "graph_maxnodes", "proc_internals", "show_proc_parent"):
             if key in st:
                 opts[key] = str(st[key]).lower()
@@ -253,15 +253,21 @@ def end_to_end(chk, rng, nproj):
             cases.append((term, dict(files=files, settings=opts, summary=summary, nruns=1)))
             # .gv files: same DOT source as the graph object; SVG of the graph names the same nodes
             gv = {f.name: f.read_text() for f in (w.root / "gv").glob("*.gv")}
+            byname = {gobj.imgfile + ".gv": gobj for gobj, _ in spy.log}
+            for name, text in gv.items():
+                if name not in byname:
+                    chk.violation("failing-input", {"what": f"{name} in graph_dir belongs to no graph",
+                                                    "files": files, "options": opts}, True)
+                elif GI.parse_dot(text) != GI.parse_dot(byname[name].dot.source):
+                    chk.violation("failing-input", {"what": f"{name} differs from the graph's DOT source",
+                                                    "files": files, "options": opts}, True)
+            for a in ("usegraph", "typegraph", "callgraph", "filegraph"):
+                gobj = getattr(p, a)
+                if len(gobj.added) > len(gobj.root) and gobj.imgfile + ".gv" not in gv:
+                    chk.violation("failing-input", {"what": f"{gobj.imgfile}.gv not written to graph_dir",
+                                                    "files": files, "options": opts}, True)
+            chk.extra["gv_files_compared"] = chk.extra.get("gv_files_compared", 0) + len(gv)
             for gobj, roots in spy.log:
-                name = gobj.imgfile + ".gv"
-                if len(gobj.added) > len(gobj.root):
-                    if name not in gv:
-                        chk.violation("failing-input", {"what": f"{name} not written to graph_dir", "files": files,
-                                                        "options": opts}, True)
-                    elif GI.parse_dot(gv[name]) != GI.parse_dot(gobj.dot.source):
-                        chk.violation("failing-input", {"what": f"{name} differs from the graph's DOT source",
-                                                        "files": files, "options": opts}, True)
                 titles = set(re.findall(r"<title>([^<]*)</title>", gobj.svg_src or ""))
                 nodes, edges = GI.parse_dot(gobj.dot.source)
                 want = {n for n in nodes}
